@@ -15,6 +15,19 @@ from . import cir, ctypeinfo, paths
 
 IGNORE_CALLS = {"mjcb_time"}
 
+# Stage anchors: the functions of an orchestration TU that the pipeline rules name as events.  With `stop=STAGES[tu]` the
+# flattener inlines every other function of that TU (orchestrators, wrappers and static helpers alike, with locals, early
+# returns and loops), so that moving code between an orchestrator and a helper does not change the event sequence.  Each
+# entry is a stage of the documented pipeline (computation.rst) implemented in that TU.
+STAGES = {
+    "src/engine/engine_forward.c": frozenset({
+        "mj_checkPos", "mj_checkVel", "mj_checkAcc",                      # state checks
+        "mj_fwdVelocity", "mj_fwdActuation", "mj_fwdAcceleration", "mj_fwdConstraint", "mj_flexCG",   # stage bodies
+        "mj_EulerSkip", "mj_implicitSkip", "mj_RungeKutta", "mj_advance",  # integrators
+    }),
+    "src/engine/engine_inverse.c": frozenset({"mj_discreteAcc", "mj_invConstraint", "mj_compareFwdInv"}),
+}
+
 
 def _is_timer(node):
     t = cir.text(node)
@@ -22,11 +35,37 @@ def _is_timer(node):
 
 
 class Flattener:
-    def __init__(self, unit, inline=None, max_depth=6):
+    def __init__(self, unit, inline=None, max_depth=6, stop=None):
         self.unit = unit
         self.enum = ctypeinfo.load()["enumerators"]
         self.inline = inline
         self.max_depth = max_depth
+        self.stop = stop          # new mode: inline every function of the unit's own file except these
+        self._nest = {}
+        self._assigned = {}
+
+    def _view(self, fn):
+        """the function with early returns nested (new mode), so that guards of later statements are complete"""
+        if self.stop is None:
+            return fn
+        k = id(fn)
+        if k not in self._nest:
+            from . import norm
+            self._nest[k] = (fn, norm.nest(fn, fatal=False))
+        return self._nest[k][1]
+
+    def _reassigned(self, fn):
+        k = id(fn)
+        if k not in self._assigned:
+            out = set()
+            for n in cir.walk(fn):
+                if (n.get("k") == "BinaryOperator" and n.get("op") == "=") or n.get("k") == "CompoundAssignOperator" or \
+                        (n.get("k") == "UnaryOperator" and n.get("op") in ("++", "--")):
+                    t = cir.strip(cir.kids(n)[0])
+                    if t is not None and t.get("k") == "DeclRefExpr":
+                        out.add((t.get("ref") or {}).get("n"))
+            self._assigned[k] = (fn, out)
+        return self._assigned[k][1]
 
     # ---- constant evaluation with an environment keyed by expression text
     def ceval(self, n, env):
@@ -111,7 +150,8 @@ class Flattener:
     def flatten(self, fn, env=None, guards=(), depth=0, out=None):
         out = [] if out is None else out
         env = dict(env or {})
-        self._stmt(cir.body(fn), env, tuple(guards), depth, out, paths.error_msg_vars(fn))
+        self._cur = [self._reassigned(fn)]
+        self._stmt(cir.body(self._view(fn)), env, tuple(guards), depth, out, paths.error_msg_vars(fn))
         return out
 
     def _g(self, guards):
@@ -152,11 +192,19 @@ class Flattener:
             callee = self.unit.funcs.get(name)
             if callee is not None and depth < self.max_depth and self._inlinable(name, callee):
                 cenv = {}
+                reas = self._reassigned(callee)
                 for p, a in zip(cir.params(callee), cir.args(n)):
                     v = self.ceval(a, env)
-                    if v is not None:
+                    if v is not None and p.get("n") not in reas:
                         cenv[p.get("n")] = v
-                self._stmt(cir.body(callee), cenv, guards, depth + 1, out, paths.error_msg_vars(callee))
+                cur = getattr(self, "_cur", None)
+                if cur is not None:
+                    cur.append(reas)
+                try:
+                    self._stmt(cir.body(self._view(callee)), cenv, guards, depth + 1, out, paths.error_msg_vars(callee))
+                finally:
+                    if cur is not None:
+                        cur.pop()
             else:
                 out.append(("call", name, self._g(guards)))
         elif (k == "BinaryOperator" and n.get("op") == "=") or k == "CompoundAssignOperator":
@@ -169,6 +217,10 @@ class Flattener:
         """orchestration functions only: no loops, no returns, no locals except timer macros"""
         if self.inline is not None:
             return name in self.inline
+        if self.stop is not None:
+            # only procedures: a value-returning function is an event of its own (its result feeds a condition)
+            return name not in self.stop and fn.get("file") in (None, self.unit.tu) and not fn.get("variadic") and \
+                (fn.get("t") or "").startswith("void (")
         errv = paths.error_msg_vars(fn)
         for x in cir.walk(fn):
             if x.get("k") in ("ForStmt", "WhileStmt", "DoStmt", "ReturnStmt", "SwitchStmt"):
@@ -203,8 +255,10 @@ class Flattener:
                     init = [c for c in cir.kids(d) if c is not None]
                     self._calls_in_expr(init[-1], env, guards, depth, out, errv)
                     v = self.ceval(init[-1], env)
-                    if v is not None:
+                    if v is not None and not (self.stop is not None and d.get("n") in (getattr(self, "_cur", None) or [set()])[-1]):
                         env[d.get("n")] = v
+                    elif d.get("n") in env:
+                        del env[d.get("n")]
             return
         if k == "IfStmt":
             c = list(cir.kids(st))
@@ -263,7 +317,25 @@ class Flattener:
                     self._stmt(s, dict(env), g2, depth, out, errv)
             return
         if k in ("ForStmt", "WhileStmt", "DoStmt"):
-            out.append(("loop", cir.text(cir.kids(st)[2]) if k == "ForStmt" else "loop", self._g(guards)))
+            if self.stop is None:
+                out.append(("loop", cir.text(cir.kids(st)[2]) if k == "ForStmt" else "loop", self._g(guards)))
+                return
+            # new mode: loops are transparent; what happens inside carries the marker guard ("in loop", True)
+            kk = list(cir.kids(st))
+            lg = guards + (("in loop", True),)
+            if k == "ForStmt":
+                kk += [None] * 5
+                self._stmt(kk[0], env, guards, depth, out, errv)
+                for x in (kk[2], kk[3]):
+                    if x is not None:
+                        self._calls_in_expr(x, env, lg, depth, out, errv)
+                self._stmt(kk[4], dict(env), lg, depth, out, errv)
+            elif k == "WhileStmt":
+                self._calls_in_expr(kk[0], env, lg, depth, out, errv)
+                self._stmt(kk[-1], dict(env), lg, depth, out, errv)
+            else:
+                self._stmt(kk[0], dict(env), lg, depth, out, errv)
+                self._calls_in_expr(kk[1], env, lg, depth, out, errv)
             return
         if k == "ReturnStmt":
             c = [x for x in cir.kids(st) if x is not None]
@@ -271,7 +343,7 @@ class Flattener:
                 self._calls_in_expr(c[0], env, guards, depth, out, errv)
             out.append(("return", "", self._g(guards)))
             return
-        if k in ("NullStmt", "BreakStmt"):
+        if k in ("NullStmt", "BreakStmt", "ContinueStmt"):
             return
         self._calls_in_expr(st, env, guards, depth, out, errv)
 
